@@ -124,6 +124,25 @@ def gen_cases(tier, seed):
             s['trigger'] = 'event'
             s['cancel_msg'] = rng.choice(msgs)
         cases.append(s)
+    # the final request of a transfer is in flight when the transfer is cancelled, and then fails on its own: the cancellation, recorded
+    # first, stays the reported outcome
+    for i in range(60 if quick else 600):
+        kind, extra, key = rng.choice([('upload', {'src': 'path', 'size': 9}, 't0/s3:PutObject#0'), ('upload', {'src': 'nonseekable', 'size': 9}, 't0/s3:PutObject#0'),
+                                       ('upload', {'src': 'seekable', 'size': 27}, 't0/s3:CompleteMultipartUpload#0'),
+                                       ('copy', {'size': 9}, 't0/s3:CopyObject#0'), ('copy', {'size': 27}, 't0/s3:CompleteMultipartUpload#0'),
+                                       ('delete', {'size': 3}, 't0/s3:DeleteObject#0'), ('download', {'dst': 'path', 'size': 9}, 't0/fs:rename#0'),
+                                       ('download', {'dst': 'path', 'size': 27}, 't0/fs:rename#0')])
+        cfg = dict(multipart_threshold=16, multipart_chunksize=8, io_chunksize=4, max_request_concurrency=rng.choice([1, 2]))
+        how = rng.choice(['future.cancel', 'future.cancel', 'shutdown_cancel', 'with_exc'])
+        s = {'seed': rng.randrange(1 << 30), 'min_part': 8, 'config': cfg, 'transfers': [dict({'kind': kind}, **extra)], 'entry': how, 'family': 'then-final-step-fails',
+             'poll_done': True,
+             'plan': {'cancel': {'at': key, 'phase': 'before', 'how': how, 'from': rng.choice(['main', 'event']) if how == 'future.cancel' else 'main'},
+                      'faults': [{'at': key, 'phase': 'after', 'kind': 'oserror' if '/fs:' in key else rng.choice(['exc', 'client4xx']), 'tag': 'FAULT-final'}]}}
+        if how != 'future.cancel':
+            s['mode'] = how
+            s['trigger'] = 'event'
+            s['cancel_msg'] = rng.choice(msgs)
+        cases.append(s)
     # cancel while a download is in the middle of a long response body (many io chunks still to come)
     for i in range(50 if quick else 500):
         ranged = rng.random() < 0.5
